@@ -9,6 +9,7 @@ directly above `#[kani::proof]`.
     //@ outside: ...            what lies outside the bounds
     //@ stubs: ...              stubs/assumptions that are part of the claim
     //@ peer: yes               input is peer-controlled bytes => built-in check failures count for C07
+    //@ heavy: yes              needs > 10 GB / minutes of conversion: run at most 3 queries at a time
 """
 import os
 import re
@@ -34,6 +35,8 @@ class Harness:
         self.stubs = meta.get("stubs", "").strip()
         self.peer = meta.get("peer", "no").strip().lower() in ("yes", "true", "1")
         self.desc = meta.get("desc", "").strip()
+        # heavy: passes alone but dies (memory) next to many others => the runner lowers the job count
+        self.heavy = meta.get("heavy", "no").strip().lower() in ("yes", "true", "1")
 
     @property
     def primary(self):
@@ -58,7 +61,7 @@ def load():
                 m = re.match(r"//@\s*(\w+)\s*:\s*(.*)$", s)
                 if m:
                     k, v = m.group(1), m.group(2)
-                    meta[k] = (meta[k] + " " + v) if k in meta and k not in ("props", "tier", "timeout", "peer") else v
+                    meta[k] = (meta[k] + " " + v) if k in meta and k not in ("props", "tier", "timeout", "peer", "heavy") else v
                     continue
                 if s.startswith("#[kani::proof"):
                     pending = True
